@@ -562,6 +562,15 @@ func (ex *Exec) assumeAlive(st *State, reach *Term, v *Term, t types.Type) {
 	}
 }
 
+// sliceShape: the part of slice well-formedness that every slice value has by construction (no size bounds)
+func (ex *Exec) sliceShape(v *Term) *Term {
+	vc := ex.vc
+	z := vc.IntConst(0)
+	return And(vc.Cmp("<=", z, vc.SliceLen(v), types.Typ[types.Int]), vc.Cmp("<=", vc.SliceLen(v), vc.SliceCap(v), types.Typ[types.Int]),
+		vc.Cmp("<=", z, vc.SliceOff(v), types.Typ[types.Int]),
+		Implies(Eq(vc.SlicePtr(v), IntLit(0)), And(Eq(vc.SliceLen(v), z), Eq(vc.SliceCap(v), z))))
+}
+
 func (ex *Exec) sliceWF(v *Term) *Term {
 	vc := ex.vc
 	z := vc.IntConst(0)
